@@ -121,4 +121,45 @@ theorem possible_of_mayReport : ∀ r ∈ rows, ∀ (o : Opts) (env : Env), defa
     mayReport r o env = true → possible nFlags r.guard o = true :=
   fun r _ o _ hD hm => possible_complete hD r.guard o hm
 
+/-! ### value selectors (ValueFlow::findValue): select-then-gate is monotone, filter-then-select is not -/
+namespace Select
+
+/-- findValue as it is in lib/valueflow.cpp (shape checked textually, behaviour compared in-process with the real function on
+every run): the value it returns under an option set is returned, unchanged, under every larger one -/
+theorem findValue_monotone {o o' : Opts} (h : o ≤ o') (vs : List Val) (v : Val) :
+    findValue o vs = some v → findValue o' vs = some v :=
+  select_then_gate_monotone select h vs v
+
+/-- … and it is gated: an inconclusive value only with `--inconclusive`, a conditional one only with warning enabled -/
+theorem findValue_gated {o : Opts} {vs : List Val} {v : Val} (h : findValue o vs = some v) :
+    (v.inconclusive = true → o.inconclusive = true) ∧ (v.condition = true → o.sev .warning = true) := by
+  have hg := filter_gated h
+  simp only [gateVal, Bool.and_eq_true, Bool.or_eq_true, Bool.not_eq_true'] at hg
+  constructor
+  · intro hi; cases hg.1 with
+    | inl h1 => rw [hi] at h1; cases h1
+    | inr h1 => exact h1
+  · intro hc; cases hg.2 with
+    | inl h1 => rw [hc] at h1; cases h1
+    | inr h1 => exact h1
+
+example : findValue (Opts.ofMask 0b1000000001) (ofDigits [5, 6]) = none ∧
+          findValue (Opts.ofMask 0b1000000011) (ofDigits [5, 6]) = some ⟨false, true, true, 1⟩ := by decide
+
+/-- the same gate applied INSIDE the loop (values the settings disallow are skipped before the preference is applied) is still
+gated but NOT monotone: an inconclusive and a conditional match on one token — with `--inconclusive` alone the inconclusive value
+is selected, adding warning selects the conditional one instead, so the first finding disappears -/
+theorem findValueFiltered_not_monotone :
+    ¬ (∀ (o o' : Opts) (vs : List Val) (v : Val), o ≤ o' → findValueFiltered o vs = some v → findValueFiltered o' vs = some v) := by
+  intro h
+  have hle : Opts.ofMask 0b1000000001 ≤ Opts.ofMask 0b1000000011 := by
+    constructor
+    · intro s; cases s <;> decide
+    · decide
+  have := h _ _ (ofDigits [5, 6]) ⟨true, false, true, 0⟩ hle (by decide)
+  revert this
+  decide
+
+end Select
+
 end Cppcheck.SevGate
